@@ -467,7 +467,7 @@ class Program:
             if len(defs) == 1 and len(stores) == 1:
                 lit = defs[0]
             elif not stores and t.id not in fn.params:
-                for st in fn.module.node.body:
+                for st in fn.module.tree.body:
                     if isinstance(st, ast.Assign) and len(st.targets) == 1 and isinstance(st.targets[0], ast.Name) and st.targets[0].id == t.id:
                         lit = st.value
         elif isinstance(t, ast.Attribute) and isinstance(t.value, ast.Name):
